@@ -9,10 +9,13 @@
 (*   mstate, decl, result      per model: life cycle, the ids its sectors received    *)
 (*                 and the placeholder names `_<ID>__<var>` handed out before main(); *)
 (*                 result = abstract value of what main() computed                    *)
-(*   block, varList, series, solved, traceStep, hasFunc, nK, parses                   *)
+(*   block, varList, series, solved, traceStep, func, reg, rhsFrom, nK, parses        *)
 (*                 per EquationSolver: parsed block, cached VariableList, abstract    *)
-(*                 TimeSeries, TraceStep, AddFunction'ed, number of ('k', ..) entries *)
-(*                 SetInitialConditions has appended to Parser.Exogenous              *)
+(*                 TimeSeries, TraceStep, the function table the solver evaluates     *)
+(*                 with (func) and what the solver itself registered (reg; the table  *)
+(*                 is the solver's OWN state: func = reg), the block whose right-hand *)
+(*                 sides the solver iterates for its variables (rhsFrom), number of   *)
+(*                 ('k', ..) entries SetInitialConditions appended to Parser.Exogenous*)
 (*                                                                                    *)
 (* One action per public call:                                                        *)
 (*   NewModel(m)      Model() / builder constructor                                   *)
@@ -25,7 +28,9 @@
 (*   Main(m, lg)      Model.main(base_file_name if lg else None)                      *)
 (*   RegisterLogs     Logger.register_standard_logs(base)                             *)
 (*   Cleanup          Logger.cleanup()                                                *)
-(*   Reparse(s, b)    EquationSolver.ParseString(block b) (AddFunction if b needs it) *)
+(*   AddFunction(s,f) EquationSolver.AddFunction('f', <body f>): the same NAME with    *)
+(*                    different bodies on different solvers                            *)
+(*   Reparse(s, b)    EquationSolver.ParseString(block b)                              *)
 (*   Solve(s)         first SolveEquation() after a parse                             *)
 (*   SolveAgain(s)    SolveEquation() again on the same solver                        *)
 (*   SetTrace(x, k)   <solver of x>.TraceStep = k   (0 = None)                        *)
@@ -42,18 +47,23 @@ CONSTANTS
     BlockInfo,      \* Blocks -> [vars, early, func, horizon]
     LogNames,       \* the standard log names
     TraceSteps,     \* values TraceStep may take (0 = None)
+    FuncBodies,     \* bodies a user function of the one name the blocks call may have
     MaxHist,        \* bound on the history length
     AsFound_VarListCached,          \* TRUE: VariableList only extracted when empty (pinned code)
     AsFound_TraceBreaksFunctions,   \* TRUE: a traced step of a solver with a user function raises
-    Hyp_IdResetPerModel             \* TRUE: hypothetical design "every Model() restarts the id counter" (never the code;
+    Hyp_IdResetPerModel,            \* TRUE: hypothetical design "every Model() restarts the id counter" (never the code;
                                     \* MC_Process_hyp_idreset.cfg shows that it breaks C17_HistoryIndependent)
+    Hyp_SharedFunctions,            \* TRUE: hypothetical "one function table for all solvers" (MC_Process_hyp_sharedfunc.cfg)
+    Hyp_RhsCachedByName             \* TRUE: hypothetical "right-hand sides cached per variable name across ParseString"
+                                    \* (MC_Process_hyp_rhscache.cfg: breaks C17_ReparseClean)
 
 Holders == Solvers \cup Models      \* everything that owns an EquationSolver
 
 NoBlock  == "none"
 NoDecl   == [sectorIds |-> << >>, ph |-> {}, refs |-> {}]
 NoResult == [names |-> {}, leaked |-> {}, booked |-> {}]
-NoSeries == [keys |-> {}, full |-> TRUE, ok |-> TRUE]
+NoFunc   == "none"
+NoSeries == [keys |-> {}, full |-> TRUE, ok |-> TRUE, body |-> NoFunc, own |-> NoFunc, eqs |-> NoBlock]
 
 ----------------------------------------------------------------------------
 (* Logger *)
@@ -103,32 +113,40 @@ Expected(m) ==      \* a function of m's own declarations only
      booked |-> { Shape[m].sectors[a[1]] \o "__" \o a[2] : a \in Shape[m].byId }]
 
 ----------------------------------------------------------------------------
-(* Solvers.  BlockInfo[b].vars: the variables of b (without the time axis "k");         *)
+(* Solvers.  BlockInfo[b].vars: the variables of b (without the time axis "k"; blocks   *)
+(* may share variable names and give them different right-hand sides);                 *)
 (* .early: those that get a full series during SetInitialConditions (exogenous);        *)
-(* .func: b calls a user function.                                                     *)
+(* .func: b calls the user function.                                                   *)
 SeriesKeys(b) == BlockInfo[b].vars \cup {"k"}
 
 ParseOp(vl) == IF AsFound_VarListCached THEN vl ELSE {}
 
-SolveOp(b, vl, tr, fn) ==
+(* fn: the function body the solver evaluates with, own: the body the solver itself     *)
+(* registered, rf: the block whose right-hand sides it holds from earlier evaluations   *)
+SolveOp(b, vl, tr, fn, own, rf) ==
     LET used       == IF vl = {} THEN BlockInfo[b].vars ELSE vl      \* ExtractVariableList only when empty
         keys       == used \cup BlockInfo[b].early \cup {"k"}
         complete   == BlockInfo[b].vars \subseteq keys               \* else KeyError in the first step
-        traceFails == AsFound_TraceBreaksFunctions /\ fn /\ tr \in 1..BlockInfo[b].horizon
+        traceFails == AsFound_TraceBreaksFunctions /\ fn # NoFunc /\ tr \in 1..BlockInfo[b].horizon
+        noFunction == BlockInfo[b].func /\ fn = NoFunc               \* NameError in the first step
+        good       == complete /\ ~traceFails /\ ~noFunction
     IN [varList |-> used,
-        series  |-> IF ~complete \/ traceFails
-                    THEN [keys |-> keys, full |-> FALSE, ok |-> FALSE]
-                    ELSE [keys |-> keys, full |-> (keys = SeriesKeys(b)), ok |-> TRUE]]
+        series  |-> [keys |-> keys,
+                     full |-> good /\ keys = SeriesKeys(b),
+                     ok   |-> good,
+                     body |-> IF BlockInfo[b].func THEN fn ELSE NoFunc,
+                     own  |-> IF BlockInfo[b].func THEN own ELSE NoFunc,
+                     eqs  |-> IF rf = NoBlock THEN b ELSE rf]]
 
 ----------------------------------------------------------------------------
 VARIABLES nextId, logs,
           mstate, decl, result,
-          block, varList, series, solved, hasFunc, nK, parses,
+          block, varList, series, solved, func, reg, rhsFrom, nK, parses,
           traceStep,
           hist
 
 mvars == << mstate, decl, result >>
-svars == << block, varList, series, solved, hasFunc, nK, parses >>
+svars == << block, varList, series, solved, func, reg, rhsFrom, nK, parses >>
 vars  == << nextId, logs, mvars, svars, traceStep, hist >>
 
 Init ==
@@ -141,7 +159,9 @@ Init ==
     /\ varList = [s \in Solvers |-> {}]
     /\ series = [s \in Solvers |-> NoSeries]
     /\ solved = [s \in Solvers |-> FALSE]
-    /\ hasFunc = [s \in Solvers |-> FALSE]
+    /\ func = [s \in Solvers |-> NoFunc]
+    /\ reg = [s \in Solvers |-> NoFunc]
+    /\ rhsFrom = [s \in Solvers |-> NoBlock]
     /\ nK = [s \in Solvers |-> 0]
     /\ parses = [s \in Solvers |-> 0]
     /\ traceStep = [x \in Holders |-> 0]
@@ -199,14 +219,21 @@ Reparse(s, b) ==
     /\ block' = [block EXCEPT ![s] = b]
     /\ varList' = [varList EXCEPT ![s] = ParseOp(@)]
     /\ solved' = [solved EXCEPT ![s] = FALSE]
-    /\ hasFunc' = [hasFunc EXCEPT ![s] = @ \/ BlockInfo[b].func]     \* Functions survive a re-parse
+    /\ rhsFrom' = [rhsFrom EXCEPT ![s] = IF Hyp_RhsCachedByName THEN @ ELSE NoBlock]   \* a new block brings its own equations
     /\ nK' = [nK EXCEPT ![s] = 0]                                   \* new parser object
     /\ parses' = [parses EXCEPT ![s] = @ + 1]
     /\ Note("Reparse", s, b, 0)
-    /\ UNCHANGED << nextId, logs, mvars, series, traceStep >>
+    /\ UNCHANGED << nextId, logs, mvars, series, func, reg, traceStep >>      \* Functions survive a re-parse
+
+AddFunction(s, f) ==
+    /\ f # reg[s]
+    /\ reg' = [reg EXCEPT ![s] = f]
+    /\ func' = IF Hyp_SharedFunctions THEN [t \in Solvers |-> f] ELSE [func EXCEPT ![s] = f]
+    /\ Note("AddFunction", s, f, 0)
+    /\ UNCHANGED << nextId, logs, mvars, block, varList, series, solved, rhsFrom, nK, parses, traceStep >>
 
 DoSolve(s, name) ==
-    LET r == SolveOp(block[s], varList[s], traceStep[s], hasFunc[s])
+    LET r == SolveOp(block[s], varList[s], traceStep[s], func[s], reg[s], rhsFrom[s])
     IN /\ varList' = [varList EXCEPT ![s] = r.varList]
        /\ series' = [series EXCEPT ![s] = r.series]
        /\ solved' = [solved EXCEPT ![s] = TRUE]
@@ -214,7 +241,8 @@ DoSolve(s, name) ==
        /\ logs' = LET l1 == Touch(logs, "log")
                   IN IF traceStep[s] \in 1..BlockInfo[block[s]].horizon THEN Touch(l1, "step") ELSE l1
        /\ Note(name, s, block[s], 0)
-       /\ UNCHANGED << nextId, mvars, block, hasFunc, parses, traceStep >>
+       /\ rhsFrom' = [rhsFrom EXCEPT ![s] = r.series.eqs]
+       /\ UNCHANGED << nextId, mvars, block, func, reg, parses, traceStep >>
 
 Solve(s)      == block[s] # NoBlock /\ ~solved[s] /\ DoSolve(s, "Solve")
 SolveAgain(s) == block[s] # NoBlock /\ solved[s] /\ DoSolve(s, "SolveAgain")
@@ -230,7 +258,7 @@ Next ==
     \/ \E m \in Models : NewModel(m) \/ DeclareHead(m) \/ DeclareRest(m) \/ Main(m, TRUE) \/ Main(m, FALSE)
     \/ ({n \in LogNames : logs[n] = "none"} # {}) /\ RegisterLogs
     \/ ({n \in LogNames : logs[n] # "none"} # {}) /\ Cleanup
-    \/ \E s \in Solvers : Solve(s) \/ SolveAgain(s) \/ \E b \in Blocks : Reparse(s, b)
+    \/ \E s \in Solvers : Solve(s) \/ SolveAgain(s) \/ (\E b \in Blocks : Reparse(s, b)) \/ (\E f \in FuncBodies : AddFunction(s, f))
     \/ \E x \in Holders, k \in TraceSteps : SetTrace(x, k)
 
 Spec == Init /\ [][Next]_vars
@@ -239,14 +267,20 @@ Spec == Init /\ [][Next]_vars
 (* C17 *)
 C17_HistoryIndependent ==
     /\ \A m \in Models : mstate[m] = "built" => result[m] = Expected(m)
-    /\ \A s \in Solvers : (solved[s] /\ series[s].keys = SeriesKeys(block[s])) => series[s].ok /\ series[s].full
+    /\ \A s \in Solvers : (solved[s] /\ series[s].keys = SeriesKeys(block[s])) =>
+          /\ series[s].body = series[s].own            \* evaluated with what this solver registered itself
+          /\ series[s].ok = ~(BlockInfo[block[s]].func /\ series[s].own = NoFunc)   \* fails iff its function is missing
+          /\ series[s].full = series[s].ok
 
 C17_ReparseClean ==
-    \A s \in Solvers : solved[s] => series[s].keys = SeriesKeys(block[s])
+    \A s \in Solvers : solved[s] => /\ series[s].keys = SeriesKeys(block[s])
+                                    /\ series[s].eqs = block[s]        \* no right-hand side of the previous block
 
-(* action property: solving again (whatever the trace setting is now) leaves the series as they were *)
+(* action property: solving again (whatever the trace setting is now) leaves the series as they were, *)
+(* unless the solver itself was given another function in between                                      *)
 C17_ResolveIdempotent ==
-    [][\A s \in Solvers : (solved[s] /\ solved'[s] /\ block'[s] = block[s]) => series'[s] = series[s]]_vars
+    [][\A s \in Solvers : (solved[s] /\ solved'[s] /\ block'[s] = block[s] /\ series'[s].own = series[s].own)
+                            => series'[s] = series[s]]_vars
 
 TypeOK ==
     /\ nextId \in Nat
